@@ -365,7 +365,8 @@ impl World {
                     o.insert("holder".into(), json!("none"));
                     o.insert("body".into(), json!({"t": "none"}));
                     for p in self.parties.iter_mut() {
-                        if p.addrs.contains(&dst.socket_addr) {
+                        // the attacker is on the path: it reads every WHOAREYOU L sends and may answer it from a spoofed source
+                        if p.addrs.contains(&dst.socket_addr) || p.name == "A" {
                             p.from_l.push(ChallengeFromL { idn: idn.clone(), dst_id: dst.node_id, addr: dst.socket_addr, aad: aad.clone() });
                         }
                     }
